@@ -368,4 +368,59 @@ theorem c01_dichotomy (wr : Wiring) (φ : Faults) (w : World) (pkt : Packet) :
   | true => exact Or.inl rfl
   | false => exact Or.inr ⟨rfl, ibcRecv_error_commits_nothing wr φ w pkt hs⟩
 
+
+/-! ### histories -/
+
+/-- What was sent directly to an account along a history (anyone may send coins to the orbiter account). -/
+def depositedTo (a : Addr) (d : String) : List Op → Nat
+  | [] => 0
+  | .deposit to d' amt :: rest => (if to = a ∧ d' = d then amt else 0) + depositedTo a d rest
+  | _ :: rest => depositedTo a d rest
+
+theorem c01_step_le (cfg : Cfg) (hd : Distinct cfg) (π : OneofOrder) (φ : Faults) (w : World) (op : Op) (d : String) :
+    (step (appWiring cfg π) φ w op).2.bank.bal cfg.orbAddr d ≤ w.bank.bal cfg.orbAddr d + depositedTo cfg.orbAddr d [op] := by
+  cases op with
+  | recv pkt =>
+    simp only [step, depositedTo, Nat.add_zero]
+    rcases c01_dichotomy (appWiring cfg π) φ w pkt with hs | ⟨_, hw⟩
+    · exact (c01_nothing_stays cfg hd π φ w pkt hs).1 d
+    · rw [hw]; exact Nat.le_refl _
+  | msg m =>
+    simp only [step, depositedTo, Nat.add_zero]
+    cases msgStep (appWiring cfg π).cfg φ w.orb m with
+    | ok r => obtain ⟨o, evs, rq⟩ := r; exact Nat.le_refl _
+    | err e => exact Nat.le_refl _
+    | panic e => exact Nat.le_refl _
+  | deposit to d' amt =>
+    simp only [step, depositedTo, Nat.add_zero, Ledger.mint_bal]
+    split <;> split <;> simp_all
+  | reimport =>
+    simp only [step, depositedTo, Nat.add_zero]
+    exact Nat.le_refl _
+  | env e => simp only [step, depositedTo, Nat.add_zero]; exact Nat.le_refl _
+
+/-- **C01 over histories.** After any history of received packets (orbiter transfers and foreign traffic, accepted or refused),
+governance messages, environment changes, genesis round trips and deposits, every balance of the orbiter account is at most
+what it was at the start plus what was sent to the account directly: nothing a packet delivered ever accumulates there. -/
+theorem c01_history (cfg : Cfg) (hd : Distinct cfg) (π : OneofOrder) (ops : List Op) (w : World) (d : String) :
+    (run (appWiring cfg π) w ops).bank.bal cfg.orbAddr d ≤ w.bank.bal cfg.orbAddr d + depositedTo cfg.orbAddr d ops := by
+  unfold run
+  induction ops generalizing w with
+  | nil => simp [depositedTo]
+  | cons op ops ih =>
+    simp only [List.foldl_cons]
+    have h1 := c01_step_le cfg hd π noFaults w op d
+    have h2 := ih (step (appWiring cfg π) noFaults w op).2
+    have h3 : depositedTo cfg.orbAddr d (op :: ops) = depositedTo cfg.orbAddr d [op] + depositedTo cfg.orbAddr d ops := by
+      cases op <;> simp [depositedTo]
+    omega
+
+/-- …in particular, without direct deposits a history that starts with an empty orbiter account ends with an empty one. -/
+theorem c01_history_empty (cfg : Cfg) (hd : Distinct cfg) (π : OneofOrder) (ops : List Op) (w : World)
+    (h0 : ∀ d, w.bank.bal cfg.orbAddr d = 0) (hnd : ∀ d, depositedTo cfg.orbAddr d ops = 0) (d : String) :
+    (run (appWiring cfg π) w ops).bank.bal cfg.orbAddr d = 0 := by
+  have := c01_history cfg hd π ops w d
+  rw [h0 d, hnd d] at this
+  omega
+
 end Orbiter.C01
